@@ -1,5 +1,9 @@
 ---- MODULE MC_Lookup ----
 EXTENDS Lookup
-CONSTANT Depth
+CONSTANT Depth, WB
 Bound == TLCGet("level") <= Depth
+\* negated witnesses (see Lookup.tla): TLC's counterexample is the behaviour to replay
+NotWBranch == ~WBranch(WB)
+NotWAliasBranch == ~WAliasBranch(WB)
+NotWEvicted == ~WEvicted
 ====
